@@ -8,6 +8,7 @@ import FormulaicVerif.Proofs.C14Spec
 import FormulaicVerif.Proofs.C14Leaves
 import FormulaicVerif.Proofs.C14Order
 import FormulaicVerif.Proofs.C14Sanitize
+import FormulaicVerif.Proofs.C14Power
 /-! # C14 — Any input string is parsed or rejected with the library's parsing error
 
 Property theorems only (helpers: `Proofs/C14.lean`). The model keeps every Python operation that
@@ -41,14 +42,15 @@ needs a multistage `~` with a multistage `~` inside its left argument
 --       ∀ k, parseTerms cfg env cs ≠ .error (.internal k)
 -- (negative witness below: `nested_multistage_escapes`).
 
--- FULL (unproved): the code's `**` / `^` expands min(n, number of terms) copies of its argument; the model
--- (`Model.power`, shared with C01) expands n copies literally. That the two ordered term sets coincide for
--- every n >= number of terms,
---   theorem power_stable (arg : List Term) (n : Nat) (h : max arg.length 1 ≤ n) : powTerms arg (n + 1) = powTerms arg n
--- is NOT proved in Lean (argument: the lexicographically first tuple with a given product repeats its first
--- element, so duplicating it is an order-preserving bijection of first occurrences). It is checked by the
--- correspondence for exponents up to 7 on bases of up to 3 terms, by the `bigexp` oracle stream on the
--- implementation, and was tested exhaustively outside Lean for all ordered sets of <= 3 terms over 3 factors. -/
+The `**` / `^` operator of the code expands `min(n, max(number of terms, 1))` copies of its argument, the
+model (`Model.power` / `powTerms`, shared with C01) `n` copies literally. That the two ORDERED term sets
+coincide is proved (`power_stable`, `power_capped`, `power_capped_plain`; helpers in `Proofs/C14Power.lean`): for terms with
+distinct factors — the invariant of the library's `Term.__init__`, the predicate `Term.WF` of the model —
+`S ** (n+1) = S ** n` as lists for every `n ≥ max |S| 1`, and without that assumption for every
+`n ≥ max |S| 2` (`power_stable_any`). The unconditional statement for `n = 1` is false of the model only
+for a one-term set whose term repeats a factor (`[[a, a]] ** 2 = [[a]]`; negative witness below), a value
+no `Term` object of the library can have; the operators of the model keep the invariant
+(`plain_ops_keep_distinct_factors`), so on the arithmetic fragment nothing is assumed. -/
 namespace FormulaicVerif.Props.C14
 open FormulaicVerif FormulaicVerif.Model FormulaicVerif.Proofs.ShuntC
 
@@ -415,5 +417,71 @@ uses is never what ends the recursion. -/
 theorem simplify_fuel_suffices (v : Val) (unwrap : Bool) (extra : Nat) :
     simplify (valDepth v + 1 + extra) unwrap v = simplify (valDepth v + 1) unwrap v :=
   Proofs.C14Spec.simplify_fuel v unwrap extra
+
+/-! ### `**` / `^`: the capped expansion of the code is the literal expansion of the model -/
+
+/-- C14.19  **`S ** (n+1) = S ** n` as ORDERED term sets for every exponent `n ≥ max |S| 1`** — the same
+terms, the same representatives (factor order) and the same first-occurrence order, for every ordered
+set `S` of terms with distinct factors (`Term.WF`: what `Term.__init__` guarantees) — `S` may list the
+same term identity several times. `powTerms arg n` de-duplicates the products of all `n`-tuples over
+`arg` in `itertools.product` order; the `(n+1)`-tuples `(t, t, …)` reproduce the `n`-tuples `(t, …)` in
+order, and every other `(n+1)`-tuple has the identity of an earlier one. -/
+theorem power_stable (arg : List Term) (hwf : ∀ t ∈ arg, Term.WF t) (n : Nat) (h : max arg.length 1 ≤ n) :
+    powTerms arg (n + 1) = powTerms arg n :=
+  Proofs.C14Power.power_stable arg hwf n h
+
+/-- C14.19'  without any assumption on the terms, from the second power on (products are normalised) -/
+theorem power_stable_any (arg : List Term) (n : Nat) (h : max arg.length 2 ≤ n) :
+    powTerms arg (n + 1) = powTerms arg n :=
+  Proofs.C14Power.power_stable_any arg n h
+
+/-- C14.20  **what the code computes is what the model computes**: `power()` of `parser.py` expands
+`copies = min(exponent, max(len(arg), 1))` factors; the literal `exponent`-fold product of the model is
+the same ordered term set, for every exponent (so exponents of any number of digits cost no more than
+`len(arg)` copies, and the `bigexp` oracle stream compares with the right value). -/
+theorem power_capped (arg : List Term) (hwf : ∀ t ∈ arg, Term.WF t) (n : Nat) :
+    powTerms arg n = powTerms arg (min n (max arg.length 1)) :=
+  Proofs.C14Power.power_capped arg hwf n
+
+/-- C14.21  The assumption of C14.19/20 is an invariant of the operators: every non-structural `to_terms`
+callable (`+ - * / %in% : ** ^`, the unary signs, `.`) returns terms with distinct factors when its
+arguments consist of such terms (products are built by `Term.__mul__`, which de-duplicates; everything
+else selects terms of the arguments). -/
+theorem plain_ops_keep_distinct_factors (o : OpSpec) (dot : DotCtx) (args : List (List Term)) (r : List Term)
+    (h : ∀ a ∈ args, ∀ t ∈ a, Term.WF t) (hr : applyPlain o dot args = .ok r) : ∀ t ∈ r, Term.WF t :=
+  Proofs.C14Power.applyPlain_wf o dot args r h hr
+
+/-- C14.20'  hence, with NO assumption, for every base expression of the arithmetic fragment of C14.2
+(unbounded nesting, powers of powers included): the term set `ts` it evaluates to satisfies
+`ts ** n = ts ** min(n, max(len(ts), 1))` for every exponent — the literal expansion of the model and the
+capped expansion of the code are the same ordered term set. -/
+theorem power_capped_plain (dot : DotCtx) (e : E) (h : Proofs.C14.PlainE e) (ts : List Term)
+    (hts : evalAst dot (strip e) = .ok (.set ts)) (n : Nat) :
+    powTerms ts n = powTerms ts (min n (max ts.length 1)) :=
+  power_capped ts (Proofs.C14Power.eval_plain_wf dot e h ts hts) n
+
+private def pa : Term := [Factor.mk "a" .lookup]
+private def pb : Term := [Factor.mk "b" .lookup]
+private def pab : Term := [Factor.mk "a" .lookup, Factor.mk "b" .lookup]
+private def pba : Term := [Factor.mk "b" .lookup, Factor.mk "a" .lookup]
+
+/-- the hypotheses are satisfiable by a set where order and representatives matter (`b` comes before `a:b`,
+so the product `b * (a:b)`, spelled `b:a`, is met first and represents that identity): the third power is
+the list below, with `b:a` and not `a:b`, and so is the power with a 1001-digit exponent -/
+example : (∀ t ∈ [pb, pab, pa], Term.WF t) ∧ powTerms [pb, pab, pa] 3 = [pb, pba, pa] ∧
+    powTerms [pb, pab, pa] (10 ^ 1000) = powTerms [pb, pab, pa] 3 := by
+  refine ⟨by decide, by decide, ?_⟩
+  rw [power_capped _ (by decide) (10 ^ 1000)]
+  have : min (10 ^ 1000) (max [pb, pab, pa].length 1) = 3 :=
+    Nat.min_eq_right (Nat.le_trans (by decide : 3 ≤ 10 ^ 1) (Nat.pow_le_pow_right (by decide) (by decide)))
+  rw [this]
+
+/-- the bound is sharp: below the number of terms one more copy does change the set -/
+example : powTerms [pa, pb] 2 ≠ powTerms [pa, pb] 1 ∧ powTerms [pa, pb] 3 = powTerms [pa, pb] 2 := by decide
+
+/-- negative witness for the hypothesis of C14.19 at `n = 1`: a term that repeats a factor (no `Term` of the
+library does) is normalised by the first multiplication -/
+example : powTerms [[Factor.mk "a" .lookup, Factor.mk "a" .lookup]] 2 ≠ powTerms [[Factor.mk "a" .lookup, Factor.mk "a" .lookup]] 1 := by
+  decide
 
 end FormulaicVerif.Props.C14
